@@ -112,6 +112,7 @@ def scenarios():
     from . import scenarios3  # noqa: F401
     from . import scenarios4  # noqa: F401
     from . import scenarios5  # noqa: F401
+    from . import scenarios6  # noqa: F401
     return sc.SCENARIOS
 
 
